@@ -1,5 +1,6 @@
 import Proofs.C13
 import Proofs.C13Streams
+import Proofs.C13Newline
 /-!
 # C13 — output reaches each destination completely, in order, exactly once
 
@@ -334,5 +335,64 @@ example : content (finish echoBeh (after echoBeh (St.init true none [([102], [11
 example : (step echoBeh (after echoBeh (St.init false none []) (.printTo .pipe [102] [120] :: winOps)) (.close [102])).2 = .num 7 := by decide
 example : (finish echoBeh (after echoBeh (St.init false none []) (.printTo .pipe [102] [120] :: winOps))).procs =
     [([115], [], 0), ([102], [120, 121, 122], 7)] := by decide
+
+/-! ### the newline-output mode: every write is delivered completely, whatever meets it at its boundaries
+
+`print` hands each of its pieces (argument, OFS, argument, …, ORS; or `$0`, ORS) to `writeOutput` on its own, `printf` its
+formatted string; `writeOutput` transforms per write (`xfWrite`), a destination receives `xfWrites mode writes`. -/
+
+/-- raw mode (and the smart mode off Windows): the destination receives the bytes of the writes, unchanged, in order -/
+theorem raw_mode_exact (ws : List Bytes) : xfWrites false ws = ws.flatten := xfWrites_raw ws
+
+/-- CRLF mode delivers completely: read back with CR LF as the line end, what the destination received is every write (its
+own CR LF pairs read as LF), in order — no byte of a write is lost at, or merged across, a write boundary; in particular a
+CR that ends one write survives an LF that starts the next. For every sequence of writes. -/
+theorem crlf_mode_complete (ws : List Bytes) : normCRLF (xfWrites true ws) = (ws.map normCRLF).flatten := by
+  rw [xfWrites_crlf, normCRLF_expandLF]
+
+/-- the shape of what is delivered in CRLF mode: the writes' texts (CR LF read as LF, per write) with every LF written as CR LF -/
+theorem crlf_mode_shape (ws : List Bytes) : xfWrites true ws = expandLF (ws.map normCRLF).flatten := xfWrites_crlf ws
+
+/-- Write boundaries are observable, exactly at one adjacency: handing `a ++ b` to `writeOutput` in one call delivers the same
+bytes as handing over `a` and then `b` if and only if `a` does not end in CR while `b` starts with LF. (The mechanism behind
+"print assembles its record and writes it once": `print "a\r"` would lose its CR.) -/
+theorem write_boundaries_matter (a b : Bytes) :
+    xfWrite true (a ++ b) = xfWrite true a ++ xfWrite true b ↔ ¬ (a.getLast? = some 13 ∧ b.head? = some 10) := by
+  constructor
+  · intro h hadj
+    have h2 := congrArg normCRLF h
+    simp only [xfWrite, if_true] at h2
+    rw [← expandLF_append, normCRLF_expandLF, normCRLF_expandLF] at h2
+    exact normCRLF_append_merges a b hadj.1 hadj.2 h2
+  · intro h
+    simp only [xfWrite, if_true]
+    rw [normCRLF_append a b h, expandLF_append]
+
+/-- `print v` in CRLF mode delivers `v` and ORS as two writes: the value's own bytes are all there, whatever ORS is -/
+theorem print_one_arg_crlf (line ofs ors v : Bytes) :
+    printBytes true line ofs ors [v] = xfWrite true v ++ xfWrite true ors := by
+  simp [printBytes, printWrites, printArgWrites, xfWrites]
+
+/-- a bare `print` delivers `$0` and ORS as two writes -/
+theorem print_bare_crlf (line ofs ors : Bytes) :
+    printBytes true line ofs ors [] = xfWrite true line ++ xfWrite true ors := by
+  simp [printBytes, printWrites, xfWrites]
+
+/-- statement-level histories (print statements in any form under any newline mode, assignments to OFS / ORS / `$0`, and all
+other operations): standard output is complete for every ending -/
+theorem stdout_complete_stmts (b : Beh) (buffered : Bool) (fs : List (Name × Bytes)) (f : Fmt) (stmts : List Stmt) :
+    (run b (St.init buffered none fs) (lower f stmts)).2.2.out = (run b (St.init buffered none fs) (lower f stmts)).2.2.outLog :=
+  (stdout_complete b buffered fs (lower f stmts)).1
+
+example : xfWrites true [[97, 13], [10]] = [97, 13, 13, 10] := by decide
+example : xfWrite true ([97, 13] ++ [10]) = [97, 13, 10] := by decide
+example : normCRLF (xfWrites true [[97, 13], [10]]) = [97, 13, 10] := by decide
+example : ¬ (([97, 13] : Bytes).getLast? = some 13 ∧ ([32] : Bytes).head? = some 10) := by decide
+example : printBytes true [] [32] [10] [[97, 13]] = [97, 13, 13, 10] := by decide
+example : printBytes true [] [10] [13, 10] [[97, 13], [98]] = [97, 13, 13, 10, 98, 13, 10] := by decide
+example : printBytes true [120, 13] [32] [10] [] = [120, 13, 13, 10] := by decide
+example : printBytes false [] [32] [10] [[97, 13, 10]] = [97, 13, 10, 10] := by decide
+example : lower (Fmt.init true) [.setORS [13], .print none [[97]], .printf (some (.gt, [102])) [10, 98]] =
+    [.print [97, 13], .printTo .gt [102] [13, 10, 98]] := by decide
 
 end GoawkModel.C13.Props
